@@ -70,6 +70,8 @@ type isoObs struct {
 	// accepted points of an interval-flushed upstream that were written to the link later than one
 	// flush interval after the write had returned (only recorded in scripts without cuts)
 	LateFlush []string
+	// what the ack hook was told by the end of the run (sequence number and code), sorted
+	AckHook []string
 }
 
 type isoCarry struct {
@@ -113,7 +115,9 @@ func genIsoScript(s *Sim) *isoScript {
 	}
 	for i := 0; i < nUp; i++ {
 		sp := upSpec{QoS: Pick(t, "qos", message.QoSReliable, message.QoSUnreliable, message.QoSPartial, message.QoSReliable),
-			Policy: Pick(t, "policy", "immediate", "size", "interval", "none", "default"), Size: 200, Interval: 200 * time.Millisecond, CloseTimeout: 5 * time.Second}
+			Policy: Pick(t, "policy", "immediate", "size", "interval", "none", "default"), Size: 200, Interval: 200 * time.Millisecond,
+			// 0 = the option is not passed at all (library default, 10 s); streams differ in their options
+			CloseTimeout: Pick(t, "closeto", 5*time.Second, 0, 200*time.Millisecond)}
 		sc.Streams = append(sc.Streams, isoStream{Up: true, QoS: sp.QoS, Spec: sp})
 	}
 	for i := 0; i < nDown; i++ {
@@ -130,6 +134,12 @@ func genIsoScript(s *Sim) *isoScript {
 			Policy: Pick(t, "policy", "immediate", "size", "interval", "none", "default"), Size: 200, Interval: 200 * time.Millisecond, CloseTimeout: 5 * time.Second}
 		lateStream = len(sc.Streams)
 		sc.Streams = append(sc.Streams, isoStream{Up: true, QoS: sp.QoS, Spec: sp, Late: true})
+	}
+	// an upstream closed by the application while the broker is slow to acknowledge (3 s: longer than
+	// a short close timeout, shorter than the default one): how long its Close waits is its own matter
+	slowAckClose := -1
+	if nUp > 0 && slowClose < 0 && t.Bool("close-during-slow-acks", 1, 4) {
+		slowAckClose = t.Choose("slow-ack-close-which", nUp)
 	}
 	// an OpenUpstream that the broker never answers and whose caller gives up (short deadline): the
 	// streams that are already open must not notice
@@ -159,6 +169,9 @@ func genIsoScript(s *Sim) *isoScript {
 		}
 		if flood >= 0 && i == n/4 {
 			sc.Acts = append(sc.Acts, isoAct{Kind: "flood", Stream: flood})
+		}
+		if slowAckClose >= 0 && i == (2*n)/3 {
+			sc.Acts = append(sc.Acts, isoAct{Kind: "close-during-slow-acks", Stream: -1, Target: slowAckClose, ID: t.Choose("w-id", 3)})
 		}
 		if unanswered >= 0 && i == n/2 {
 			sc.Acts = append(sc.Acts, isoAct{Kind: "unanswered-open", Stream: -1, Target: unanswered})
@@ -264,21 +277,25 @@ func execIsoScript(s *Sim, sc *isoScript, only int) map[int]*isoObs {
 		case "slow-close":
 			// the slow-broker window (replies withheld for 3 s, then sent in order) is an event of the
 			// environment and happens in every projection; only the target's own calls are projected away
-			if !s.Idle(0) || len(y.aliveLinks()) == 0 {
+			if len(y.aliveLinks()) == 0 {
 				break
 			}
 			s.Broker.Cfg.AutoReq, s.Broker.Cfg.AutoAck = false, false
 			tti := 1 + a.Target
 			if h := ups[a.Target]; in(a.Target) && h != nil && !closedByApp[a.Target] && s.Idle(tti) {
+				// (everything the target does runs on the target's own task: whether it happens must not
+				// depend on what other streams keep the control task busy with)
 				closedByApp[a.Target] = true
 				s.Stat("env.close-abandoned-while-broker-slow")
 				s.Start(tti, y.writeOp(h, tti, dataID(a.ID), []int{40}))
 				s.Wait()
 				s.Harvest()
 				y.flushLinks()
-				cl := y.closeUpOp(h)
-				cl.CtxKind, cl.Timeout = "deadline", time.Second
-				s.Start(0, cl)
+				if s.Idle(tti) {
+					cl := y.closeUpOp(h)
+					cl.CtxKind, cl.Timeout = "deadline", time.Second
+					s.Start(tti, cl)
+				}
 			}
 			for k := 0; k < 30; k++ {
 				y.Advance(100 * time.Millisecond)
@@ -289,10 +306,42 @@ func execIsoScript(s *Sim, sc *isoScript, only int) map[int]*isoObs {
 			}
 			y.flushLinks()
 			s.Broker.Cfg.AutoReq, s.Broker.Cfg.AutoAck = true, true
+		case "close-during-slow-acks":
+			// the slow-ack window belongs to the environment (every projection has it); the write and the
+			// Close belong to the target stream
+			if len(y.aliveLinks()) == 0 {
+				break
+			}
+			s.Broker.Cfg.AutoAck = false
+			tti := 1 + a.Target
+			if h := ups[a.Target]; in(a.Target) && h != nil && !closedByApp[a.Target] && s.Idle(tti) {
+				closedByApp[a.Target] = true
+				s.Stat("env.close-while-acks-are-slow")
+				s.Start(tti, y.writeOp(h, tti, dataID(a.ID), []int{40}))
+				s.Wait()
+				s.Harvest()
+				y.flushLinks()
+				if s.Idle(tti) {
+					cl := y.closeUpOp(h)
+					cl.CtxKind, cl.Timeout = "deadline", 30*time.Second
+					s.Start(tti, cl)
+				}
+			}
+			for k := 0; k < 30; k++ {
+				y.Advance(100 * time.Millisecond)
+			}
+			for len(s.Broker.Pend) > 0 {
+				s.Broker.Release(s.Broker.Pend[0], nil)
+			}
+			y.flushLinks()
+			s.Broker.Cfg.AutoAck = true
+			for k := 0; k < 5; k++ {
+				y.Advance(100 * time.Millisecond)
+			}
 		case "unanswered-open":
 			// the slow-broker second is an event of the environment (kept in every projection); only
 			// the open call itself belongs to the target stream
-			if !s.Idle(0) || len(y.aliveLinks()) == 0 {
+			if len(y.aliveLinks()) == 0 {
 				break
 			}
 			s.Broker.Cfg.AutoReq = false
@@ -524,6 +573,12 @@ func execIsoScript(s *Sim, sc *isoScript, only int) map[int]*isoObs {
 			sort.Strings(o.LateFlush)
 		}
 		o.Closed, o.Resumed = len(h.ClosedEv), len(h.ResumedEv)
+		if !sc.HasCut {
+			for _, r := range h.After {
+				o.AckHook = append(o.AckHook, fmt.Sprintf("%d:%v", r.Seq, r.Code))
+			}
+			sort.Strings(o.AckHook)
+		}
 		// the ack hook of a stream only hears about that stream's own chunks
 		sent := map[uint32]bool{}
 		for _, r := range h.Before {
@@ -642,6 +697,7 @@ func compareIso(s *Sim, sc *isoScript, full, alone *isoObs) {
 	diff("points-lost", full.Lost, alone.Lost)
 	diff("write-results", full.Writes, alone.Writes)
 	diff("points-flushed-later-than-the-interval", full.LateFlush, alone.LateFlush)
+	diff("results-reported-to-the-ack-hook", full.AckHook, alone.AckHook)
 	if full.Final == "working" && alone.Final == "working" {
 		diff("read-results", full.Reads, alone.Reads)
 		diff("acknowledged-results", full.Acked, alone.Acked)
